@@ -5,6 +5,7 @@ the RSL it constructs."""
 from __future__ import annotations
 
 import ast
+from fractions import Fraction
 
 from . import algebra as A
 from . import symeval as S
@@ -180,6 +181,72 @@ def eval_part(ev, rsl, part, var):
     if f is None:
         return None
     return S.num_norm(ev.call(f, [var, part_args(rsl, part)], {}))
+
+
+def eval_part_regimes(ev, rsl, part, var, max_paths=8):
+    """Piecewise kernels: fold rsl.<part>(var, args) once per outcome of the comparisons it makes on the integration variable alone
+    (`if 1 - z < 1e-5: ...`).  -> list of (conditions, value) with conditions = [(difference lhs - rhs, comparator name, outcome)].
+    A kernel without such comparisons gives one regime with no conditions."""
+    va = var.canon() if hasattr(var, "canon") else str(var)
+    results, todo = [], [[]]
+    while todo and len(results) < max_paths:
+        prefix = todo.pop()
+        trace = []
+        prev = ev.on_compare
+
+        def hook(op, a, b, node, _prefix=prefix, _trace=trace, _prev=prev):
+            try:
+                d = A.to_rat(a) - A.to_rat(b)
+            except (Undecided, TypeError):
+                return _prev(op, a, b, node) if _prev is not None else None
+            if set(d.all_atoms()) != {va} or type(op).__name__ not in ("Lt", "LtE", "Gt", "GtE"):
+                return _prev(op, a, b, node) if _prev is not None else None
+            i = len(_trace)
+            choice = _prefix[i] if i < len(_prefix) else True
+            _trace.append((d, type(op).__name__, choice))
+            return choice
+
+        ev.on_compare = hook
+        try:
+            val = eval_part(ev, rsl, part, var)
+        finally:
+            ev.on_compare = prev
+        results.append((list(trace), val))
+        for i in range(len(prefix), len(trace)):
+            todo.append([t[2] for t in trace[:i]] + [not trace[i][2]])
+    if todo:
+        raise Undecided("more piecewise regimes than the enumeration bound")
+    return results
+
+
+def condition_holds(cond, value, var_name):
+    d, opname, outcome = cond
+    v = A.evalf_dec(d, {var_name: value}) if isinstance(value, Fraction) else A.evalf(d, {var_name: value})
+    truth = {"Lt": v < 0, "LtE": v <= 0, "Gt": v > 0, "GtE": v >= 0}[opname]
+    return truth == outcome
+
+
+def regime_breakpoints(regimes, var_name):
+    """Zeros in (0, 1) of the differences the regimes compare (bisection; the differences are monotone in practice)."""
+    pts = set()
+    for conds, _ in regimes:
+        for d, _op, _o in conds:
+            lo, hi = 1e-15, 1 - 1e-15
+            try:
+                flo, fhi = A.evalf(d, {var_name: lo}), A.evalf(d, {var_name: hi})
+            except (Undecided, ValueError, ZeroDivisionError):
+                continue
+            if flo == 0 or fhi == 0 or (flo < 0) == (fhi < 0):
+                continue
+            for _ in range(200):
+                mid = 0.5 * (lo + hi)
+                fm = A.evalf(d, {var_name: mid})
+                if (fm < 0) == (flo < 0):
+                    lo = mid
+                else:
+                    hi = mid
+            pts.add(0.5 * (lo + hi))
+    return sorted(pts)
 
 
 def func_of(v):
